@@ -413,7 +413,7 @@ def nt_verify(case, labels):
 
 
 VERIFY_CLASSES = ["valid", "malleated", "valid-z+n", "r-out", "s-out", "both-out", "other-key", "other-z", "random",
-                  "near", "infinity", "infinity", "r+n", "s+n"]
+                  "near", "infinity", "infinity", "r+n", "s+n", "close-x", "close-x"]
 
 
 def _out_values(v0, n, i):
@@ -456,7 +456,33 @@ def _mk_verify(cv, d, z, k, cls, a1, a2):
     elif cls == "infinity":
         r = (-z * pow(d, -1, n)) % n
         s = [s0, a2 % (n - 1) + 1, 1, n - 1][a1 % 4]
+    elif cls == "close-x":
+        # a valid triple built so that the two points verification adds, (z/s)G and (r/s)Q, have abscissas a chosen small
+        # (or word-boundary) distance apart: s = k, T = the curve point nearest to x((z/s)G) + dx, R = (z/s)G + T,
+        # r = x(R) mod n, Q = (s/r)T
+        s = k
+        U1 = c.mul_fast(z * pow(s, -1, n) % n, c.G)
+        mag = CLOSE_DX[a1 % len(CLOSE_DX)]
+        dx = mag if a2 & 1 else -mag
+        T = None
+        if U1 is not None:
+            for j in range(200):
+                x = U1[0] + dx + (j if dx > 0 else -j)
+                ys = c.ys_for_x(x) if 0 <= x < c.p else []
+                if ys:
+                    T = (x, ys[(a2 >> 1) % len(ys)])
+                    break
+        R = c.add(U1, T) if T is not None else None
+        if R is not None and R[0] % n:
+            r = R[0] % n
+            Q = c.mul_fast(s * pow(r, -1, n) % n, T)
+        else:
+            cls = "valid"
     return {"curve": cv, "Q": list(Q), "z": zz, "r": r, "s": s, "cls": cls}
+
+
+# abscissa distances between the two addends of verification (both signs are generated)
+CLOSE_DX = [1, 2, 3, 255, 256, 65536, 2**31, 2**32 - 1, 2**32, 2**63, 2**64 - 1, 2**64, 2**64 + 1, 2**65, 2**128]
 
 
 def s_verify():
